@@ -491,7 +491,7 @@ def check_pipe(ctx, rng, n):
         if c["mode"] == "files":
             return a + ["--files"] + c["files"]
         return a + ["-e", PAT] + c["files"]
-    res = K.pmap(lambda c: K.run_rg(args(c), root, close_after=c["k"], timeout=30), cases)
+    res = K.pmap(lambda c: K.run_rg(args(c), root, close_after=c["k"], timeout=300), cases)
     lines, owners = [], []
     for ci, c in enumerate(cases):
         one_file = len(c["files"]) == 1
@@ -538,7 +538,7 @@ def check_pipe(ctx, rng, n):
         ctx.note_case("pipe" + repr(c), True)
         key = "pipe/%s/%s" % (c["mode"], "par" if c["threads"] > 1 and len(c["files"]) > 1 else "ser")
         ctx.cov.setdefault("modes", {})[key] = ctx.cov.setdefault("modes", {}).get(key, 0) + 1
-        if r["timeout"] or r["secs"] > 20:
+        if r["timeout"] or r["secs"] > 120:       # a complete search of these files takes well under a second
             ctx.violation("rg did not end promptly after its stdout was closed", replay)
             continue
         slow = max(slow, r["secs"])
@@ -751,7 +751,7 @@ def run(ctx):
         "the abstract walk (items, per-file result, bytes printed) is derived from the generated tree by this check's "
         "own rules (walk_items); the searcher/printer that produce those bytes are the subject of C01-C03/C09",
         "PARTIAL: promptness after a closed pipe and cross-thread timing of the errored/matched flags are runtime "
-        "behaviour — exercised with a 20 s limit, not proved",
+        "behaviour — exercised with a 120 s limit (generous: the machine may be loaded), not proved",
         "exit status of --type-list / --generate / --help / --version (special modes) is outside the model",
     ]
 
